@@ -202,6 +202,84 @@ def _invariance(t):
                 nontrivial=f0.out != base, lang=lang)
 
 
+STYLE_OPTS = [('indent_brace', ['0', '1', '2', '3', '4']), ('indent_braces', ['true', 'false']), ('indent_braces_no_func', ['true', 'false']),
+              ('indent_braces_no_class', ['true', 'false']), ('indent_braces_no_struct', ['true', 'false']), ('indent_case_brace', ['0', '2', '-2']),
+              ('indent_switch_case', ['0', '2', '4']), ('indent_switch_body', ['0', '2']), ('indent_else_if', ['true', 'false']),
+              ('indent_namespace', ['true', 'false']), ('indent_class', ['true', 'false']), ('indent_continue', ['0', '2']),
+              ('indent_func_call_param', ['true', 'false']), ('indent_paren_close', ['0', '1', '2']), ('indent_min_vbrace_open', ['0', '2']),
+              ('indent_vbrace_open_on_tabstop', ['true', 'false']), ('indent_case_shift', ['0', '1'])]
+
+
+def _consistency(t):
+    """Siblings of one block start in one column; the arms of an if/else chain put their braces and bodies in the same columns."""
+    cid, i = t
+    lang, P, fr = gen_program(i)
+    a = {'indent_columns': str(fr.randint(1, 8)), 'indent_with_tabs': '0'}
+    for name, vals in fr.sample(STYLE_OPTS, fr.choice([1, 2, 3, 5])):
+        a[name] = fr.choice(vals)
+    src, idx = P.render(fr, style='allman', indent=fr.choice([0, 2, 4]), random_indent=fr.random() < 0.5)
+    f = fmt.fmt(src, lang, cfggen.text(a))
+    if f.out is None:
+        return dict(cid=cid, status='rejected', viols=[])
+    il, ol = split_lines(src), split_lines(f.out)
+    if len(il) != len(ol) or any(squeeze(p) != squeeze(q) for p, q in zip(il, ol)):
+        return dict(cid=cid, status='unmapped', viols=[])
+    L = P.lines
+    w = {}
+    for k, line in enumerate(ol):
+        w[idx[k]] = len(lead_of(line))
+    viols = []
+    groups = {}
+    for li, ln in enumerate(L):
+        if ln.grp is not None and li in w and ln.role in ('stmt', 'head', 'comment', 'do-while'):
+            groups.setdefault(ln.grp, []).append(li)
+    judged = 0
+    for g, members in groups.items():
+        judged += len(members)
+        ws = {w[m] for m in members}
+        if len(ws) > 1:
+            m0 = members[0]
+            m1 = next(m for m in members if w[m] != w[m0])
+            viols.append(('siblings', 'statements of one block start in different columns: %r at %d, %r at %d' % (
+                L[m0].text[:30], w[m0], L[m1].text[:30], w[m1])))
+            break
+    # arms of a chain
+    if not viols and 'indent_brace_parent' not in a:
+        for hi, ln in enumerate(L):
+            if ln.role != 'head':
+                continue
+            heads = [hi] + [j for j, l2 in enumerate(L) if l2.role == 'head-else' and l2.opener == hi]
+            if len(heads) < 2:
+                continue
+            opens = [j for j, l2 in enumerate(L) if l2.role == 'open' and l2.opener in heads and j in w]
+            closes = [j for j, l2 in enumerate(L) if l2.role == 'close' and l2.opener in heads and j in w]
+            firsts = [j + 1 for j in opens if j + 1 in w and L[j + 1].role in ('stmt', 'head', 'comment')]
+            judged += len(opens) + len(closes) + len(firsts)
+            for what, xs in (('opening braces', opens), ('closing braces', closes), ('first body statements', firsts), ('keywords', [h for h in heads if h in w])):
+                if len({w[j] for j in xs}) > 1:
+                    viols.append(('chain-arms|' + what.split()[0], 'the %s of the arms of one if/else chain are in different columns: %s' % (
+                        what, [(L[j].text[:20], w[j]) for j in xs][:4])))
+                    break
+            if viols:
+                break
+    # a closing brace lines up with its opening brace
+    if not viols:
+        for j, l2 in enumerate(L):
+            if l2.role in ('close', 'close-do') and j in w:
+                o = next((q for q in range(j - 1, -1, -1) if L[q].role in ('open', 'bare-open') and L[q].opener == l2.opener and L[q].depth == l2.depth
+                          and L[q].vdepth == l2.vdepth and L[q].case_body == l2.case_body), None)
+                if o is not None and o in w:
+                    judged += 1
+                    if w[o] != w[j]:
+                        viols.append(('brace-pair', 'a closing brace is not in the column of its opening brace: %d vs %d (opened by %r)' % (
+                            w[j], w[o], L[l2.opener].text[:30] if l2.opener is not None else '')))
+                        break
+    out = []
+    for kind, detail in viols:
+        out.append((kind, detail, a))
+    return dict(cid=cid, status='ok', viols=out, judged=judged, input=src if out else None, cfg=cfggen.text(a), nontrivial=f.out != src, lang=lang)
+
+
 def reindent_all(data, r):
     out = []
     for line in data.split(b'\n'):
@@ -258,6 +336,7 @@ def check(ctx):
         fr = fixed_rng(PROP, 'ic:' + rel)
         a = cfg_assign(model_config(fr, lang)) if fr.random() < 0.5 else {}
         inv.append(('inv-corpus:%s' % rel, 'corpus', (rel, lang), a))
+    cons = [('cons:%d' % i, i) for i in sr.sample(range(PU), 1500 if quick else 20000)]
     ctx.rule = ('generated block-structured C/C++/Java programs (one statement, brace or label per line; nesting depth up to 8; if/else chains, '
                 'braceless bodies, for/while/do-while, switch/case with fall-through, bare blocks, namespaces, classes), brace placement mixed per '
                 'construct, input indentation random per line.  Oracle 1 (invariance): re-indenting every line of the input (3 variants; corpus files: '
@@ -310,6 +389,24 @@ def check(ctx):
             ctx.violation(key, '%s (case %s): %s\n  minimal options: %s' % (kind, r['cid'], detail, small),
                           files={'input': r['input'], 'input-reindented': r['variant'], 'config.cfg': cfggen.text(small)})
     ctx.count('invariance_lines_judged', tot_i)
+    tot_c = 0
+    for r in pmap(_consistency, cons):
+        ctx.evaluations += 1
+        ctx.count('consistency_' + r['status'])
+        if r['status'] != 'ok':
+            continue
+        tot_c += r['judged']
+        if r['nontrivial']:
+            ctx.nt(r['cid'])
+        for kind, detail, a in r['viols']:
+            def pred(sub, kind=kind, cid=r['cid']):
+                return False
+            key = '%s|%s' % (kind, ','.join('%s=%s' % kv for kv in sorted(a.items()) if kv[0] not in ('indent_columns', 'indent_with_tabs')))
+            if key in seen:
+                continue
+            seen.add(key)
+            ctx.violation(key, '%s (case %s, %s): %s\n  options: %s' % (kind, r['cid'], r['lang'], detail, a), files={'input': r['input'], 'config.cfg': r['cfg']})
+    ctx.count('consistency_lines_judged', tot_c)
     for r in okc[:3]:
         ctx.sample(dict(case=r['cid'], lang=r['lang'], lines_judged=r['judged'], max_level=r['maxdepth']))
     ctx.assumptions += ['the closed form covers indent_columns, indent_with_tabs, output_tab_size, indent_switch_case and indent_namespace; other '
@@ -320,3 +417,4 @@ def check(ctx):
     ctx.require('closed_ok', 1500)
     ctx.require('closed_form_lines_judged', 60000)
     ctx.require('invariance_lines_judged', 40000)
+    ctx.require('consistency_lines_judged', 40000)
